@@ -5,12 +5,23 @@ EXTENDS WinconStream, Json, IOUtils, TLC
 Rec == ndJsonDeserialize(IOEnv.TRACE)
 VARIABLES l, xs, live
 TInit == l = 1 /\ xs = XInit /\ live = TRUE
+(* new = 2: the probe after a FAILED call (reliable console, buffer ESC ESC [ 0 m "probe"): whatever state the failed call  *)
+(* left behind, the console is handed "probe" in the default colours after at most four bytes of debris (a character the     *)
+(* failed call cut short may surface as U+FFFD or eat the first ESC); nothing of the failed message is handed over again.     *)
+ProbeText == <<112, 114, 111, 98, 101>>
+ProbeOk(e) ==
+  LET obs == FlatConsole(e.console)
+      n   == Len(obs)
+  IN /\ e.ret[1] = "ok"
+     /\ n >= 5 /\ n <= 9
+     /\ \A k \in 1..5 : obs[n - 5 + k] = <<<<16, 16>>, ProbeText[k]>>
 TNext == /\ l <= Len(Rec)
          /\ LET e  == Rec[l]
                 x0 == IF e.new = 1 THEN XInit ELSE xs
                 lv == IF e.new = 1 THEN TRUE ELSE live
                 nx == ConsoleNext(x0, e)
-            IN IF lv THEN (\E y \in nx : xs' = y) /\ live' = (e.ret[1] = "ok")
+            IN IF e.new = 2 THEN (IF ProbeOk(e) THEN TRUE ELSE FALSE) /\ xs' = xs /\ live' = FALSE
+               ELSE IF lv THEN (\E y \in nx : xs' = y) /\ live' = (e.ret[1] = "ok")
                ELSE xs' = x0 /\ live' = lv
          /\ l' = l + 1
 TSpec == TInit /\ [][TNext]_<<l, xs, live>>
